@@ -20,7 +20,15 @@ import (
 
 type Rng struct{ s uint64 }
 
-func NewRng(seed uint64) *Rng { return &Rng{s: seed*0x9E3779B97F4A7C15 + 0x1234567} }
+// NewRng scrambles the seed first: consecutive seeds must not give shifted copies of one stream.
+func NewRng(seed uint64) *Rng {
+	z := seed + 0x632BE59BD9B4E019
+	z = (z ^ (z >> 30)) * 0xBF58476D1CE4E5B9
+	z = (z ^ (z >> 27)) * 0x94D049BB133111EB
+	z ^= z >> 31
+	z = (z ^ 0x1234567) * 0xD6E8FEB86659FD93
+	return &Rng{s: z ^ (z >> 32)}
+}
 
 func (r *Rng) U64() uint64 {
 	r.s += 0x9E3779B97F4A7C15
